@@ -191,3 +191,15 @@ MANIFEST_TEXT['C15'] = dict(
     text='Coq theorems on the connection\'s outbound path, for every schedule of writers / pump / close: delivered is a prefix of accepted (exactly once, in order), per-writer order, nothing lost while open, a write on a closed connection errors without effect. Compared with the real ws server and client over loopback sockets in three directions (boundary sizes up to 1 MiB, closes at random points); concurrent writers racing a close are judged on the implementation (order, exactly-once, content, progress of every Write, no panic).',
     note='Trusted: Coq kernel, extraction, harness; gorilla/websocket framing, the kernel and TCP are exercised, not verified. Partial: delivery itself is the network\'s; the theorems speak of the library\'s queueing discipline.',
     technique='Coq invariant proof over a queue LTS + differential correspondence on real loopback sockets + concurrency monitor')
+
+PROPS['C17'] = Prop('C17', harness='c17', entries=['c17', 'c17k'], props_file='theories/Props/C17.v', quick_n=1, thorough_n=1,
+                    trusted=WS_TRUST + ['raw gorilla server as the peer: it parks every incoming dial until the scenario decides whether it fails or succeeds, so that label sequences are reproduced exactly'],
+                    assumptions=['the random part of the back-off is environment nondeterminism (range 0 in the correspondence runs)',
+                                 'keep-alive: the theorems are about the deadline bookkeeping over a virtual clock; timer accuracy, gorilla, the kernel are outside the model (real-time scenarios check detection within wait + 750 ms)',
+                                 'a Stop racing the instant the back-off delay elapses (both select arms ready) is not forced by the harness'],
+                    rule='label sequences over {start, abrupt connection loss (TCP reset), dial fails, dial succeeds, stop} on the real ws client against a raw loopback server with parked dials: a corpus (first retry succeeds, four failed retries, stopped-and-restarted client, stop during a dial that fails / succeeds) plus seeded random sequences (quick 10, thorough 150), compared with the model (handler trace, number of dials, final phase); 4 real-time keep-alive scenarios (peer stops answering pings; healthy idle connection; server side: silent client, pinging client) judged by a monitor',
+                    design_ref='5 C17', monitor_prefixes=['C17'], confirm_slow=True, harness_timeout=3000, spec_entries=[])
+MANIFEST_TEXT['C17'] = dict(
+    text='Coq theorems on the reconnection machine: any number of failed dials keeps the loop going; back-off doubled (plus the random range) for the first repeat attempts then constant; a restarted client has no stale abort signal (repaired F7); once idle only Start connects; Stop during a dial ends the loop when the dial fails -- and the refutation witness of "never reconnects after Stop" when that dial succeeds (open finding F26); keep-alive deadline bookkeeping (silent peer detected by last activity + wait, healthy peer never dropped). The machine is compared with the real client against a raw loopback server with parked dials; keep-alive runs in real time under a monitor.',
+    note='Trusted: Coq kernel, extraction, harness; gorilla/websocket, timers and TCP are exercised, not verified. Partial as stated in DESIGN.md: the runtime half of the property (timers firing, the network noticing a reset) is observed, not proved.',
+    technique='Coq proofs over a reconnection state machine and a timed deadline model + differential correspondence with a scripted raw server + real-time keep-alive monitor')
